@@ -2,8 +2,8 @@
    The page assignment is the greedy loop `assign_pages` (port of _assign_pages).  For ALL row metadata
    lists, budgets and new_page flags:
      C04_check: the model's assignment satisfies check_assign — a break falls before a row only if a
-                grouping rule forces it or the row no longer fits, and a forced row (with rows on the
-                page) always breaks.  The same boolean check_assign is evaluated on the page membership
+                grouping rule forces it or the row no longer fits, and a row that is forced or no longer
+                fits (with rows already on the page) always breaks.  The same boolean check_assign is evaluated on the page membership
                 read back from the implementation's output.
      C04_steps / C04_first: pages are numbered 1, 2, ... without gaps in row order (contiguous runs).
      C04_forced: a subline change, or a page_by change under new_page, always starts a new page.
